@@ -131,12 +131,20 @@ def correspondence(ctx, rebound):
                             big=tree and not fast and rng.random() < 0.3, fast=fast, weird=not tree)
         cfg["keep"] = 1 if rng.random() < (0.2 if tree else 0.5) else 0
         cfg["nact"] = -1 if rng.random() < 0.6 else rng.randint(0, cfg["N"])
+        hyb = False
+        if not tree and not line and cfg["N"] >= 1 and rng.random() < 0.4:
+            # the resolve loop inside a MERCURIUS / TRACE step (all particles in the encounter map, or star-only modes):
+            # both the loop and reb_simulation_remove_particle force keep_sorted there, whatever the user's setting
+            hyb = True
+            integ, mode = rng.choice([("mercurius", 1), ("mercurius", 1), ("mercurius", 0), ("trace", 1), ("trace", 3), ("trace", 0), ("trace", 2)])
+            cfg["hybrid"] = (integ, mode, list(range(cfg["N"])))
+            cfg["nact"] = -1
         full, simA = L.record_all(rebound, cfg)
         outs = gen_outs(rng, len(full))
         log, fin, simB = L.record_outcomes(rebound, cfg, outs)
         ids = [1000 + i for i in range(cfg["N"])]
-        loop_terms.append("(%s, %s, (%d)%%Z, %s, %s, %s, %s, %s, (%d)%%Z)" % (
-            bstr(tree), bstr(cfg["keep"]), cfg["nact"], L.zl(ids), L.entries(full), L.zl(outs), L.events(log), L.idps(fin),
+        loop_terms.append("(%s, %s, %s, (%d)%%Z, %s, %s, %s, %s, %s, (%d)%%Z)" % (
+            bstr(tree), bstr(hyb), bstr(cfg["keep"]), cfg["nact"], L.zl(ids), L.entries(full), L.zl(outs), L.events(log), L.idps(fin),
             simB.N_active))
         # library-only: every identity pair handed to resolve must be one of the pairs the search found
         found = set((a[3], a[4], a[2]) for a in full)
@@ -149,9 +157,11 @@ def correspondence(ctx, rebound):
         ctx.case(key=key, nontrivial=len(full) >= 2,
                  sample={"kind": "loop", "mode": cfg["mode"], "keep_sorted": cfg["keep"], "N": cfg["N"],
                          "pending": len(full), "outcomes": outs[:8]} if k < 2 else None)
-        dk = "loop|%s|keep=%d|periodic=%d" % (cfg["mode"], cfg["keep"], cfg["periodic"])
+        dk = "loop|%s|keep=%d|periodic=%d%s" % (cfg["mode"], cfg["keep"], cfg["periodic"], "|" + cfg["hybrid"][0] + str(cfg["hybrid"][1]) if hyb else "")
         dist[dk] = dist.get(dk, 0) + 1
-        if not tree:
+        if hyb:
+            pass          # the search itself under the hybrid integrators is compared in (h)
+        elif not tree:
             ba = box_args(cfg, simA)
             if line:
                 term = "pending_line %s %s (%d)%%Z %s" % (ba, vlib.fhex(cfg["dt"]), cfg["seed"], L.particles(cfg))
@@ -810,6 +820,87 @@ def search_massless_regression(ctx, rebound, fails):
             fails.append(("%s:massless_pair:nan" % resolver, dict(kind=resolver, cfg=cfg_replay(cfg), problem=bad)))
 
 
+def search_hybrid_multi(ctx, rebound, fails):
+    """several collisions found in ONE search call under MERCURIUS / TRACE (real steps, library merge resolver): overlapping pairs
+    and bystanders with distinct power-of-two masses and hashes, added in a shuffled order, keep_sorted 0 and 1, several
+    rand_seeds.  Judged by identity: every pair handed to resolve must be one of the overlapping pairs, every overlapping pair must
+    end as ONE particle carrying the sum of its two masses, every bystander must survive unchanged."""
+    rng = ctx.rng
+    for k in range(ctx.scale(24, 240)):
+        integ = rng.choice(["mercurius", "trace"])
+        keep = rng.randrange(2)
+        npairs = rng.randint(2, 4)
+        nby = rng.randint(1, 3)
+        sc = dict(integrator=integ, dt=1e-3, seed=rng.randrange(1, 2 ** 31), bodies=[], ops=[])
+        sim = H.new_sim(rebound, sc)
+        sim.collision_resolve_keep_sorted = keep
+        sim.t = 1.0
+        sim.add(m=1.0, r=1e-4, hash=1)
+        slots = [("pair", i) for i in range(npairs)] + [("by", i) for i in range(nby)]
+        rng.shuffle(slots)
+        angles = [2 * math.pi * (i + 0.3 * rng.random()) / len(slots) for i in range(len(slots))]
+        bodies = []          # (hash, mass, kind, group)
+        e = 0
+        for (kind, gi), f in zip(slots, angles):
+            a = rng.uniform(0.9, 1.1)
+            x, y = a * math.cos(f), a * math.sin(f)
+            v = 1.0 / math.sqrt(a)
+            vx, vy = -v * math.sin(f), v * math.cos(f)
+            m1 = 2.0 ** -(12 + e); e += 1
+            r1 = rng.uniform(2e-3, 4e-3)
+            bodies.append(dict(hash=100 + len(bodies), m=m1, r=r1, x=x, y=y, vx=vx, vy=vy, kind=kind, g=gi))
+            if kind == "pair":
+                m2 = 2.0 ** -(12 + e); e += 1
+                r2 = rng.uniform(2e-3, 4e-3)
+                d = 0.6 * (r1 + r2)
+                ux, uy = -math.sin(f), math.cos(f)
+                bodies.append(dict(hash=100 + len(bodies), m=m2, r=r2, x=x - d * ux, y=y - d * uy, vx=vx + 2e-3 * ux, vy=vy + 2e-3 * uy,
+                                   kind=kind, g=gi))
+        order = list(range(len(bodies)))
+        rng.shuffle(order)          # pair members are not adjacent in the array, bystanders sit in between
+        for i in order:
+            b = bodies[i]
+            sim.add(m=b["m"], r=b["r"], x=b["x"], y=b["y"], z=0.0, vx=b["vx"], vy=b["vy"], vz=0.0, hash=b["hash"])
+        designed = {}
+        for b in bodies:
+            if b["kind"] == "pair":
+                designed.setdefault(b["g"], []).append(b)
+        pairs = {frozenset(q["hash"] for q in v): sum(q["m"] for q in v) for v in designed.values()}
+        handed, cnt, grown = set(), dict(handed=0, merges=0), set()
+        all_handed = []
+        H.merge_recorder(rebound, sim, handed, cnt, grown)
+        bad = None
+        try:
+            for _ in range(2):
+                sim.step()
+                all_handed += list(handed); handed.clear()
+        except RuntimeError as ex:
+            bad = "the integrator raised %r" % (ex,)
+        ctx.evaluations += 1
+        final = {p.hash.value: p.m for p in sim.particles}
+        if not bad:
+            wrong = [sorted(h) for h in all_handed if h not in pairs]
+            if wrong:
+                bad = "pair %s handed to the resolver although it does not overlap (designed overlapping pairs: %s)" % (
+                    wrong[0], [sorted(p) for p in pairs])
+        if not bad:
+            for hp, msum in pairs.items():
+                alive = [h for h in hp if h in final]
+                if len(alive) != 1 or final[alive[0]] != msum:
+                    bad = "overlapping pair %s did not end as one particle of mass %r: %s" % (sorted(hp), msum, {h: final.get(h) for h in hp})
+                    break
+        if not bad:
+            for b in bodies:
+                if b["kind"] == "by" and final.get(b["hash"]) != b["m"]:
+                    bad = "bystander %d (mass %r) ended as %r" % (b["hash"], b["m"], final.get(b["hash"]))
+                    break
+        ctx.nontrivial.add(("hybrid_multi", integ, keep, npairs, nby))
+        if bad:
+            fails.append(("hybrid:%s:multi_collision:keep=%d" % (integ, keep),
+                          dict(kind="hybrid_multi", integrator=integ, keep_sorted=keep, rand_seed=sc["seed"],
+                               bodies_in_array_order=[bodies[i] for i in order], problem=bad)))
+
+
 # ================================================================================================ entry point
 def run(ctx):
     libdir = ctx.lib()
@@ -834,6 +925,7 @@ def run(ctx):
     search_hardsphere(ctx, rebound, fails)
     search_restore(ctx, rebound, fails)
     search_histories(ctx, rebound, fails)
+    search_hybrid_multi(ctx, rebound, fails)
     ctx.log("history searcher done")
     seen = set()
     for key, rep in fails:
